@@ -104,6 +104,8 @@ def programs(draw, profile):
         pvals[sid] = out
         flags[sid] = merge_flags(fl, [f for _, f in ins], sid)
         steps.append({"id": sid, "op": opname, "in": ins_ids, "args": args})
+        if not flags[sid].defined:
+            break  # several results are valid from here on: must be the final step
     if not steps:
         out_id = tables[0]["name"]
     else:
